@@ -46,8 +46,13 @@ _SPACES = dict(
     u8='ABSORPTION([ZO,SEQ-ZO-FO]);ELIMINATION(MM);PERIPHERALS(1..2);LAGTIME(ON);TRANSITS([1,3])',
     # three peripheral counts: region of finding stepwise_peripheral_skip
     p3='ABSORPTION(ZO);PERIPHERALS(1..3)',
+    # a base model WITH lag time and first-order absorption: switching the lag time OFF and instantaneous absorption
+    # are search features (the documented exclusions name LAGTIME(ON) only)
+    off6='ABSORPTION([ZO,SEQ-ZO-FO,INST]);PERIPHERALS(1);LAGTIME(OFF);TRANSITS(1)',
 )
 _BASE = {('ABSORPTION', 'INST'), ('ELIMINATION', 'FO'), ('TRANSITS', 0, 'DEPOT'), ('PERIPHERALS', 0), ('LAGTIME', 'OFF')}
+if UNIVERSE == 'off6':
+    _BASE = {('ABSORPTION', 'FO'), ('ELIMINATION', 'FO'), ('TRANSITS', 0, 'DEPOT'), ('PERIPHERALS', 0), ('LAGTIME', 'ON')}
 _all = parse(_SPACES[UNIVERSE], mfl_class=True).convert_to_funcs()
 # what the tool hands to the algorithms: the space minus the base model's own features, sorted by (category, option)
 FUNCS = {k: v for k, v in sorted(((k, v) for k, v in _all.items() if k not in _BASE), key=lambda x: (x[0][0], x[0][1]))}
